@@ -9,6 +9,7 @@ import EzdxfVerif.Lemmas.Schema
 import EzdxfVerif.Lemmas.Payload
 import EzdxfVerif.Lemmas.Envelope
 import EzdxfVerif.Lemmas.DocReload
+import EzdxfVerif.Lemmas.DocNames
 import EzdxfVerif.Gen.Schemas
 import EzdxfVerif.Gen.PayloadTables
 
@@ -1429,8 +1430,11 @@ open EzdxfVerif.Doc in
     (2) the block and layout tables are identical (names, BLOCK_RECORD handles, tab order),
     (3) every live entity that is linked to a layout or block comes back as the identical record: same handle, same
         owner, same block reference, same paperspace flag,
-    (4) what a second `write()` exports (BLOCKS and ENTITIES sections, handle for handle) is what the first one exported:
-        the second cycle changes nothing but `$HANDSEED` -/
+    (4) what a second `write()` exports (BLOCKS and ENTITIES sections handle for handle, the GROUP objects with their member
+        handles) is what the first one exported: the second cycle changes nothing but `$HANDSEED`,
+    (5) the groups come back as `DXFGroup.preprocess_export` wrote them (invalid members purged, a group spread over several
+        layouts cleared) and the tables with the required entries added (`Model/Doc.lean` as extended by the DOC builder:
+        linked sub-entities are part of the entity record of (3)) -/
 theorem doc_roundtrip_skeleton (s : Doc.State) (seed : Nat) (ho : Doc.OwnerInv s) (hd : Doc.DbInv s)
     (hseed : s.next ≤ seed) :
     (Doc.step s (.reload seed)).2 = .ok ∧
@@ -1440,7 +1444,10 @@ theorem doc_roundtrip_skeleton (s : Doc.State) (seed : Nat) (ho : Doc.OwnerInv s
       Doc.findEnt (Doc.step s (.reload seed)).1 h = some x) ∧
     ((Doc.writeFile (Doc.step s (.reload seed)).1).blocks = (Doc.writeFile s).blocks ∧
      (Doc.writeFile (Doc.step s (.reload seed)).1).entities = (Doc.writeFile s).entities ∧
-     (Doc.writeFile (Doc.step s (.reload seed)).1).handseed = seed) := by
+     (Doc.writeFile (Doc.step s (.reload seed)).1).handseed = seed ∧
+     (Doc.writeFile (Doc.step s (.reload seed)).1).groups = (Doc.writeFile s).groups) ∧
+    ((Doc.step s (.reload seed)).1.groups = s.groups.map (Doc.auditGroup s) ∧
+     (Doc.step s (.reload seed)).1.tabs = Doc.addMissing s.tabs Doc.requiredTabs) := by
   have hspec := fun k => Doc.spec_reload s seed ho hd hseed k
   obtain ⟨hok, hE, _⟩ := Doc.reload_state s seed hseed
   have hb : (Doc.step s (.reload seed)).1.blocks = s.blocks := by
@@ -1450,7 +1457,11 @@ theorem doc_roundtrip_skeleton (s : Doc.State) (seed : Nat) (ho : Doc.OwnerInv s
   have hn : (Doc.step s (.reload seed)).1.next = seed := by
     simp only [Doc.step, hseed, decide_true, ↓reduceIte]
   have hlive : ∀ k, Doc.liveContent (Doc.step s (.reload seed)).1 k = Doc.liveContent s k := fun k => (hspec k).2
-  refine ⟨hok, fun k => (hspec k).2, ⟨hb, hl⟩, ?_, ?_, ?_, ?_⟩
+  have hg : (Doc.step s (.reload seed)).1.groups = s.groups.map (Doc.auditGroup s) := by
+    simp only [Doc.step, hseed, decide_true, ↓reduceIte]
+  have ht : (Doc.step s (.reload seed)).1.tabs = Doc.addMissing s.tabs Doc.requiredTabs := by
+    simp only [Doc.step, hseed, decide_true, ↓reduceIte]
+  refine ⟨hok, fun k => (hspec k).2, ⟨hb, hl⟩, ?_, ⟨?_, ?_, ?_, ?_⟩, ⟨hg, ht⟩⟩
   · intro h x hf ha hown
     have hmem : x ∈ s.ents := List.mem_of_find?_eq_some hf
     have hdb := hd x hmem ha
@@ -1462,16 +1473,24 @@ theorem doc_roundtrip_skeleton (s : Doc.State) (seed : Nat) (ho : Doc.OwnerInv s
   · simp only [Doc.writeFile, Doc.blockBr, hb, hlive]; try rfl
   · simp only [Doc.writeFile, Doc.blockBr, hb, hlive]; try rfl
   · simp only [Doc.writeFile, hn]
+  · -- GROUP objects: what the first save wrote (members audited by `preprocess_export`) is what the second save writes
+    simp only [Doc.writeFile, hg, List.map_map]
+    apply List.map_congr_left
+    intro g _
+    simp only [Function.comp, Doc.auditGroup_reload_idem s seed hd hseed g]
 
 -- non-vacuity: a document with two entities in the modelspace and one in a block, after an unlink; write + read
 #guard
-  let s := Doc.run ⟨[], [(23, []), (27, [])], [(Doc.lower Doc.modelSpaceName, Doc.modelSpaceName, 23),
-      (Doc.lower Doc.paperSpaceName, Doc.paperSpaceName, 27)],
-      [⟨Doc.modelKey, Doc.ofString "Model", 23, 0⟩, ⟨Doc.upper (Doc.ofString "Layout1"), Doc.ofString "Layout1", 27, 1⟩],
-      [[48]], 47⟩ [.add 23 47 48, .add 23 48 49, .add 27 49 50, .unlink 23 47]
+  let s0 : Doc.State :=
+    { ents := [], spaces := [(23, []), (27, [])],
+      blocks := [(Doc.lower Doc.modelSpaceName, Doc.modelSpaceName, 23), (Doc.lower Doc.paperSpaceName, Doc.paperSpaceName, 27)],
+      layouts := [⟨Doc.modelKey, Doc.ofString "Model", 23, 0⟩, ⟨Doc.upper (Doc.ofString "Layout1"), Doc.ofString "Layout1", 27, 1⟩],
+      layers := [[48]], next := 47 }
+  let s := Doc.run s0 [.add 23 47 48, .add 23 48 49, .add 27 49 50, .unlink 23 47]
   let s' := (Doc.step s (.reload 60)).1
   (Doc.writeFile s').entities == [48, 49] && (Doc.writeFile s').entities == (Doc.writeFile s).entities &&
-    Doc.content s' 23 == [48] && (Doc.findEnt s' 48).map (·.owner) == some (some 23)
+    Doc.content s' 23 == [48] && (Doc.findEnt s' 48).map (·.owner) == some (some 23) &&
+    (Doc.writeFile s').groups == (Doc.writeFile s).groups
 
 /-! ## 8. attributes and payload of any size in one statement
 
